@@ -282,6 +282,47 @@ print(json.dumps(out))
     return json.loads(line[-1])
 
 
+def xml_pipeline_probe(ctx):
+    """The real XMLTransformerPipeline on (a) a malformed XML file, (b) a well-formed XML file whose declared encoding is not
+    UTF-8: SAX parses (b) inside the try block, then the pipeline re-reads the file with .decode("utf-8") OUTSIDE of it."""
+    code = r"""
+import json, sys
+from pathlib import Path
+from codemodder.codemods.xml_transformer import XMLTransformerPipeline, ElementAttributeXMLTransformer
+from codemodder.file_context import FileContext
+class T(ElementAttributeXMLTransformer):
+    change_description = "x"
+    def __init__(self, out, file_context, results=None, **kw):
+        super().__init__(out, file_context, name_attributes_map={"a": {"x": "1"}}, results=results)
+root = Path(sys.argv[1]).resolve()
+files = {"good.xml": b'<?xml version="1.0" encoding="utf-8"?>\n<a>ok</a>\n',
+         "broken.xml": b"<a><b></a>\n",
+         "latin.xml": b'<?xml version="1.0" encoding="ISO-8859-1"?>\n<a>caf\xe9</a>\n'}
+class Ctx:
+    dry_run = False
+    directory = root
+out = {}
+for name, content in files.items():
+    (root / name).write_bytes(content)
+    fc = FileContext(root, root / name, [], [], None)
+    try:
+        cs = XMLTransformerPipeline(T).apply(Ctx, fc, None)
+        out[name] = {"raised": None, "changeset": cs is not None, "failed": [p.name for p in fc.failures]}
+    except Exception as e:
+        out[name] = {"raised": type(e).__name__, "changeset": False, "failed": [p.name for p in fc.failures]}
+    out[name]["untouched"] = (root / name).read_bytes() == content
+print(json.dumps(out))
+"""
+    import subprocess
+    d = ctx.scratch / "xml_probe"
+    d.mkdir()
+    p = subprocess.run([core.PY, "-c", code, str(d)], env=core.cli_env(), stdout=subprocess.PIPE, stderr=subprocess.PIPE, timeout=300)
+    line = [l for l in p.stdout.decode().splitlines() if l.startswith("{")]
+    if not line:
+        raise RuntimeError("xml probe failed: " + p.stderr.decode()[-800:])
+    return json.loads(line[-1])
+
+
 def run(ctx: core.Ctx):
     R = rc.Runner(ctx)
     pts = corpus_points() + fault_points(ctx)
@@ -360,6 +401,26 @@ def run(ctx: core.Ctx):
             ctx.mismatch("RegexTransformerPipeline.apply vs regex_apply_guards", "tables say a try block is missing but nothing escaped", {"probe": probe})
         if probe["failed"] != ["b.txt"] or probe["files"]["b.txt"] != "\xff\xfe hello\n":
             ctx.violation("kf_c10_regex_isolation", f"regex pipeline: bad file not isolated: {probe}", {"probe": probe})
+    # the XML pipeline: C10_xml_refuted (the re-read of the file after the try block is not guarded)
+    xg = tv.get("xml_apply_guards") or []
+    xp = xml_pipeline_probe(ctx)
+    ctx.count("xml_probe")
+    ctx.notes.append(f"xml pipeline probe (real classes): {xp}")
+    xml_tries = "TryParse" in xg and "TryTransform" in xg
+    escaped = [n for n, r in xp.items() if r["raised"]]
+    if escaped:
+        if xml_tries:
+            ctx.mismatch("XMLTransformerPipeline.apply vs xml_apply_guards", f"tables say every read/parse is guarded but {escaped} raised", {"xml_probe": xp})
+        ctx.violation("kf_xml_reread_no_isolation",
+                      f"XMLTransformerPipeline: {xp[escaped[0]]['raised']} on {escaped} escapes apply (the file is re-read with "
+                      f".decode('utf-8') outside the try block after SAX parsed it); a malformed file is handled: {xp.get('broken.xml')}",
+                      {"xml_probe": xp, "theorem": "C10_xml_refuted", "witness": "corpus/C10/xml_latin1.json"})
+    else:
+        if not xml_tries:
+            ctx.mismatch("XMLTransformerPipeline.apply vs xml_apply_guards", "tables say a read is unguarded but nothing escaped", {"xml_probe": xp})
+        for n in ("broken.xml", "latin.xml"):
+            if xp[n]["changeset"] or not xp[n]["untouched"]:
+                ctx.violation("kf_c10_xml_isolation", f"xml pipeline: {n} not isolated: {xp[n]}", {"xml_probe": xp})
     lg = tv.get("libcst_apply_guards") or []
     if not ("TryParse" in lg and "TryTransform" in lg):
         ctx.notes.append(f"C10_isolation is on its NEGATIVE branch for the current source: libcst_apply_guards = {lg}")
@@ -368,6 +429,10 @@ def run(ctx: core.Ctx):
 
 
 def replay(ctx, body):
+    if "xml_probe" in body:
+        print("xml pipeline probe now:", xml_pipeline_probe(ctx))
+        print("recorded:", body["xml_probe"])
+        return 0
     if "probe" in body:
         print("regex pipeline probe now:", regex_pipeline_probe(ctx))
         print("recorded:", body["probe"])
